@@ -2,43 +2,5 @@
 `qasm/int/ext_op.rs`: Op::push, Op::append.
 (split out of GenRegs2.lean so that an equality that no longer holds blocks only the properties that rely on it)
 -/
-import Qvnt.Lemmas.GenPre
-
-set_option linter.unusedSectionVars false
-
-namespace Qvnt.Gen2
-open Qvnt Qvnt.Gen
-
-variable {R : Type}
-
-/-! ### the interpreter's block queue (`qasm/int/ext_op.rs`) -/
-section extop
-variable [Add R] [Sub R] [Mul R] [Div R] [Neg R] [Zero R] [One R] [Consts R]
-
-theorem extop_push_eq (e : ExtOp R) (o : MultiOp R) : extop_push e o = e.push o := by
-  unfold extop_push ExtOp.push
-  by_cases h : e.tail.isEmpty
-  · simp only [h, ↓reduceIte]
-    cases hl : e.blocks.getLast? with
-    | none => simp
-    | some p =>
-      obtain ⟨l, sep⟩ := p
-      cases sep <;> simp
-  · simp [h]
-
-/-- `append`: the receiver becomes the model's `append`, the argument is left empty (`mem::take`) -/
-theorem extop_append_eq (e other : ExtOp R) :
-    (extop_append e other).1 = e.append other ∧ (extop_append e other).2 = { blocks := [], tail := [] } := by
-  unfold extop_append ExtOp.append
-  refine ⟨?_, rfl⟩
-  by_cases h : e.tail.isEmpty
-  · simp [h]
-  · simp only [h, Bool.not_false, ↓reduceIte, Bool.false_eq_true]
-    cases hl : e.blocks.getLast? with
-    | none => simp
-    | some p =>
-      obtain ⟨l, sep⟩ := p
-      cases sep <;> simp
-
-end extop
-end Qvnt.Gen2
+import Qvnt.Lemmas.GenExtOp.extop_push_eq
+import Qvnt.Lemmas.GenExtOp.extop_append_eq
